@@ -16,6 +16,15 @@ ops:  ft <ms> | acquire <i> | release <i> | setexpire <i> <seconds> | ids
                           the call (after the call if it sent fewer): other instances' operations and clock
                           advances BETWEEN the round trips of one call (go-redis hook in the harness)
       lost <acquire i|release i>   the reply of the executed command was dropped: the caller saw an error
+      reply <kind> <acquire i|release i|acquirectx i|releasectx i>
+                          Redis executed the call's script; the hook then handed the Go code <kind> instead of the
+                          real reply: nil | wrapnil (red.Nil bare / wrapped with %w) | nilval (resp == nil, no error) |
+                          err | typednil (errors that are not red.Nil) | s:<text> | i:<int>     => <res> cmds=… <store>
+      ctx <cancel|expired|far> <p> <acquire i|release i>
+                          the call entered through AcquireCtx / ReleaseCtx with a caller's context: cancelled
+                          immediately before the call's p-th Redis command (p = 0: before the call), a deadline
+                          that has already passed, or a deadline far in the future           => <res> cmds=… <store>
+      a result `err+true` = the call returned an error AND true (never allowed: "reports false otherwise")
 obs:  <true|false|ok|err>  then the store as seen directly in miniredis, one token per key:
       k<j>=-  (absent)   or   k<j>=<owner>:<pttl ms>   (owner printed as id<i> of the instance whose id it is)
       race … => won=<i,j,…|-> <store>       ids => distinct len=<n>  |  dup
@@ -42,6 +51,7 @@ callers' beliefs (`Spec.Belief`, fed with the implementation's results only).
 import GoZero.Base.Trace
 import GoZero.C19.Spec
 import GoZero.C19.Cmds
+import GoZero.C19.Outcomes
 namespace GoZero.C19
 
 open GoZero
@@ -57,6 +67,8 @@ inductive DOp where
   | lost (outer : Op)
   | new (i : Nat)
   | mass (m : Nat)
+  | reply (kind : String) (h : Handed) (outer : Op)
+  | ctx (kind : String) (p : Nat) (outer : Op)
   deriving Repr
 
 def parseInst (n : Nat) (s : String) : Option Nat := do
@@ -93,6 +105,10 @@ def parseOp (n : Nat) : List String → Option DOp
     let inner ← (splitSemi rest.dropLast).mapM (parseSimple n)
     pure (.inj p outer inner)
   | ["lost", call, i] => do pure (.lost (← parseCall n [call, i]))
+  | ["reply", kind, call, i] => do pure (.reply kind (← parseHanded kind) (← parseCall n [call, i]))
+  | ["ctx", kind, p, call, i] => do
+    if kind ≠ "cancel" ∧ kind ≠ "expired" ∧ kind ≠ "far" then none
+    pure (.ctx kind (← p.toNat?) (← parseCall n [call, i]))
   | ["ft", ms] => do pure (.op (.ft (← ms.toNat?)))
   | ["acquire", i] => do pure (.op (.acquire (← parseInst n i)))
   | ["release", i] => do pure (.op (.release (← parseInst n i)))
@@ -472,7 +488,17 @@ def checkInj (c : Ctx) (r : Report) (d : DSt) (p : Nat) (outer : Op) (inner : Li
         | none => 0
       let s := (secsCands sp outer []).headD 0
       let seq := placed outer ob innerObs pos s
-      let why := (specExplains c.cfg c.keys sp seq dumpS).getD "results not explained"
+      let why0 := (specExplains c.cfg c.keys sp seq dumpS).getD "results not explained"
+      -- when every result is explained and only the lock differs, name the clause of the property by the call
+      let clause : String :=
+        match (specSeq c.cfg sp seq).1, outer, ob with
+        | none, .release _, some false => "a Release that reported false changed the lock (late or foreign release must be harmless) — or an operation that ran during it did: "
+        | none, .release _, some true => "Release by the holder did not free exactly its key — or an operation that ran during it changed the lock: "
+        | none, .acquire _, some true => "lease after a successful Acquire is not seconds*1000+500 ms for this holder — or an operation that ran during it changed the lock: "
+        | none, .acquire _, some false => "a refused Acquire changed the lock — or an operation that ran during it did: "
+        | none, _, none => "a call that failed with an error changed the lock — or an operation that ran during it did: "
+        | _, _, _ => ""
+      let why := clause ++ why0
       r := r.violation c.sec c.line s!"{why} — no atomic placement of the call among the operations that ran during it explains the results (call sent [{cmdsS}], operations ran before its command {atS}) op=[{c.opTxt}] impl=[{c.impl}]"
       r := r.addCover "inj-not-linearizable"
       let (r', sp', bel', won') := beliefSeq c r sp bel won pos seq true
@@ -531,6 +557,90 @@ def checkLost (c : Ctx) (r : Report) (d : DSt) (outer : Op) (obs : List String) 
     return (r, { d with st := st, sp := sp, bel := Spec.updB d.bel who none })
   | _ => return bad
 
+/-! ### `reply` and `ctx` lines: every outcome kind at the entry points -/
+
+def callName : Op → String
+  | .release _ => "Release"
+  | _ => "Acquire"
+
+def whoOf : Op → Nat
+  | .acquire i => i
+  | .release i => i
+  | .acquireS i _ => i
+  | _ => 0
+
+/-- a `reply` line: Redis executed the script, the Go code was handed `h` instead of the real reply -/
+def checkReply (c : Ctx) (r : Report) (d : DSt) (kind : String) (h : Handed) (outer : Op) (obs : List String) :
+    Report × DSt := Id.run do
+  let mut r := r
+  let bad := (r.mismatch c.sec c.line "<res> cmds=… <store>" c.impl, d)
+  match obs with
+  | resT :: cmdsT :: dump =>
+    let some cmdsS := afterPrefix "cmds=" cmdsT | return bad
+    let some ob := resOfTok resT | return bad
+    let cmds := listTok cmdsS
+    let cached := cmds.head? ≠ some "evalsha!"
+    let cls := if kind.startsWith "s:" then (if kind = "s:OK" then "string-OK" else "string-other")
+      else if kind.startsWith "i:" then (if kind = "i:1" then "int-1" else "int-other") else kind
+    r := r.addCover s!"reply-{callName outer}-{cls}"
+    if cmds.contains "nosubst" then
+      -- the call's first executed command is not a script run: nothing could be substituted; the results are
+      -- checked as those of a plain call
+      r := r.mismatch c.sec c.line s!"<res> cmds={cmdsText cached} <store>" c.impl
+      r := r.addCover "reply-call-is-not-a-script-run"
+      let (r', d') := checkOps c r d [(outer, ob)] dump (fun m => s!"{resTok outer (m.headD true)} cmds={cmdsText cached}")
+      return (r', d')
+    let want := handedOf outer h
+    let head :=
+      if d.down then "err cmds=evalsha!"
+      else s!"{if want.2 then "err" else resTok outer want.1} cmds={cmdsText cached}"
+    if !d.down then
+      -- monitor: the call may report true on the granting reply only, and must report it then
+      match ob with
+      | some true =>
+        if !grants outer h then
+          r := r.violation c.sec c.line s!"{callName outer} by instance {whoOf outer} reported true on a reply that does not say so (it was handed {kind}): only {if callName outer = "Release" then "the integer 1 (one key deleted)" else "the string OK"} means success op=[{c.opTxt}] impl=[{c.impl}]"
+      | _ =>
+        if grants outer h then
+          r := r.violation c.sec c.line s!"{callName outer} by instance {whoOf outer} did not report true although the reply it was handed ({kind}) says the script succeeded op=[{c.opTxt}] impl=[{c.impl}]"
+    -- the lock itself: the script ran for real (spec and model make the step); beliefs follow the truth
+    let truth := (Spec.step c.cfg d.sp outer).2
+    let (r', d') := checkOps c r d [(outer, if d.down then none else some truth)] dump (fun _ => head)
+    return (r', d')
+  | _ => return bad
+
+/-- a `ctx` line: the call entered through the Ctx variant with a caller's context -/
+def checkCtx (c : Ctx) (r : Report) (d : DSt) (kind : String) (p : Nat) (outer : Op) (obs : List String) :
+    Report × DSt := Id.run do
+  let mut r := r
+  let bad := (r.mismatch c.sec c.line "<res> cmds=… <store>" c.impl, d)
+  match obs with
+  | resT :: cmdsT :: dump =>
+    let some cmdsS := afterPrefix "cmds=" cmdsT | return bad
+    let some ob := resOfTok resT | return bad
+    let cmds := listTok cmdsS
+    let cached := cmds.head? ≠ some "evalsha!"
+    -- the round trip before which the context is dead: 0/1 = nothing is ever sent; `far` never fires
+    let pEff := if kind = "expired" then 0 else if kind = "far" then 1000 else p
+    let m := runCancel real c.cfg d.st outer cached pEff
+    let head :=
+      if d.down then (if pEff = 0 then "err cmds=-" else "err cmds=evalsha!")
+      else match m.result with
+        | some b => s!"{resTok outer b} cmds={cmdsText cached}"
+        | none =>
+          -- a context that is dead when the call starts never reaches the connection (go-zero's breaker hook
+          -- returns the context's error first): no command is seen; cancelled before command 1: the EVALSHA fails
+          if pEff = 0 then "err cmds=-" else if m.sent = 0 then "err cmds=evalsha!" else "err cmds=evalsha!,eval!"
+    r := r.addCover s!"ctx-{kind}-{callName outer}"
+    if kind = "cancel" then r := r.addCover s!"ctx-cancel-before-command-{p}"
+    if !d.down then
+      r := r.addCover (match m.result with
+        | none => if pEff ≤ 1 then "ctx-dead-before-the-call-sent-anything" else "ctx-dead-between-noscript-and-eval"
+        | some _ => if kind = "far" then "ctx-deadline-later-than-the-call" else "ctx-dead-after-the-script-run(call-unaffected)")
+    let (r', d') := checkOps c r d [(outer, ob)] dump (fun _ => head)
+    return (r', d')
+  | _ => return bad
+
 def parseWon (n : Nat) (tok : String) : Option (List Nat) :=
   match tok.splitOn "=" with
   | ["won", "-"] => some []
@@ -550,7 +660,12 @@ def runSection (r : Report) (s : Section) : Report := Id.run do
   let cfg := mkCfg nkeys
   let keys := keyNames nkeys
   let mut d : DSt := { st := St.init, sp := Spec.ASt.init }
-  for l in s.lines do
+  for l0 in s.lines do
+    -- `err+true`: a call returned an error AND true — never allowed; afterwards treated as the error it is
+    let errTrue := l0.obs.any fun t => (t.splitOn "err+true").length > 1
+    let l : Line := if errTrue then { l0 with obs := l0.obs.map fun t => t.replace "err+true" "err" } else l0
+    if errTrue then
+      r := r.violation s.idx l.idx s!"a call that failed with an error reported true (the property: 'reports false otherwise'; a caller that looks at the result believes it holds, or has freed, the lock) op=[{joinSp l.op}] impl=[{joinSp l0.obs}]"
     let impl := joinSp l.obs
     let c : Ctx := { n := n, nkeys := nkeys, cfg := cfg, keys := keys, sec := s.idx, line := l.idx,
                      opTxt := joinSp l.op, impl := impl }
@@ -620,6 +735,14 @@ def runSection (r : Report) (s : Section) : Report := Id.run do
       r := { r with ops := r.ops + 1 }
       let (r', d') := checkLost c r d outer l.obs
       r := r'; d := d'
+    | some (.reply kind h outer) =>
+      r := { r with ops := r.ops + 1 }
+      let (r', d') := checkReply c r d kind h outer l.obs
+      r := r'; d := d'
+    | some (.ctx kind p outer) =>
+      r := { r with ops := r.ops + 1 }
+      let (r', d') := checkCtx c r d kind p outer l.obs
+      r := r'; d := d'
     | some (.race js) =>
       r := { r with ops := r.ops + 1 }
       match l.obs with
@@ -668,7 +791,14 @@ def runSection (r : Report) (s : Section) : Report := Id.run do
           match implB with
           | none =>
             r := r.addCover s!"result-{res}"
-            r := r.mismatch s.idx l.idx "<true|false|ok>" impl
+            if res = "err" ∧ isCall then
+              -- an error on a plain call while Redis answers and no context is involved: the lock can neither be
+              -- taken nor freed through this entry point
+              r := r.violation s.idx l.idx s!"{callName op} by instance {whoOf op} failed with an error although Redis is reachable and no context was cancelled: through this entry point the lock can {if callName op = "Release" then "never be freed by its holder" else "never be acquired"} op=[{joinSp l.op}] impl=[{impl}]"
+              let (r', d') := checkOps c r d [(op, none)] dump (fun _ => resTok op (step cfg d.st op).2)
+              r := r'; d := d'
+            else
+              r := r.mismatch s.idx l.idx "<true|false|ok>" impl
           | some b =>
             let (r', d') := checkOps c r d [(op, some b)] dump (fun m => resTok op (m.headD true))
             r := r'; d := d'
